@@ -51,8 +51,8 @@ pub fn gen_number(rng: &mut Rng, k: &Knobs, out: &mut Vec<char>) {
     if rng.chance(1, 3) { out.push('-'); }
     if rng.chance(1, 3) { out.push('0'); } else {
         out.push((b'1' + rng.below(9) as u8) as char);
-        let hi = if k.huge_tokens { 3000 } else if k.long_numbers { 40 } else { 4 };
-        digits(rng, out, 0, hi);
+        let hi = if k.huge_tokens { if rng.chance(1, 40) { 70_000 } else { 3000 } } else if k.long_numbers { 40 } else { 4 };
+        digits(rng, out, if hi == 70_000 { 65_000 } else { 0 }, hi);
     }
     if rng.chance(1, 3) { out.push('.'); digits(rng, out, 1, if k.huge_tokens { 2000 } else if k.long_numbers { 30 } else { 3 }); }
     if rng.chance(1, 3) {
@@ -76,8 +76,10 @@ const SIMPLE_ESC: [char; 8] = ['"', '\\', '/', 'b', 'f', 'n', 'r', 't'];
 
 pub fn gen_string(rng: &mut Rng, k: &Knobs, out: &mut Vec<char>, max_elems: usize) {
     out.push('"');
-    let max_elems = if k.huge_tokens && rng.chance(1, 3) { 4000 } else { max_elems };
-    for _ in 0..rng.urange(0, max_elems) {
+    // (one huge string in twenty goes past 2^16 elements: a length kept in 16 bits would wrap)
+    let max_elems = if k.huge_tokens && rng.chance(1, 3) { if rng.chance(1, 20) { 70_000 } else { 4000 } } else { max_elems };
+    let n = if max_elems == 70_000 { rng.urange(65_000, 70_000) } else { rng.urange(0, max_elems) };
+    for _ in 0..n {
         match rng.below(12) {
             0..=4 => out.push(*rng.pick(&RAW)),
             5 => out.push((b'a' + rng.below(26) as u8) as char),
